@@ -67,7 +67,7 @@ def ndarray_request(draw):
                     cand[0]['name'] = c['name']
     Y.fix_last_column(tables)
     hdr = draw(header([t['name'] for t in tables]))
-    return dict(tables=tables, hdr=hdr, byteorder=draw(st.sampled_from(['<', '<', '>'])),
+    return dict(tables=tables, hdr=hdr, byteorder=draw(st.sampled_from(['<', '<', '>', 'q'])),
                 comments=draw(st.sampled_from([None, None, 'a comment line', ['first comment', 'second # comment'], ['only one']])))
 
 
